@@ -103,7 +103,8 @@ def work(t):
     P.equal(f'{tag}|O2 t\' = t + 1', np.array([new['t'].item()], dtype=object), np.array([t1], dtype=object), pre + facts)
     P.prove(f'{tag}|O2 last sketch row eigenvalue is zero', zl(new['e'][k - 1]) == 0, pre + facts)
     P.equal(f'{tag}|O2 alpha\' = alpha + {factor} * rho^2' + (' (S-AdaGrad: alpha = delta + accumulated escaped mass by induction)' if t['algo'] == 'S_ADA' else ''),
-            np.array([new['alpha'].item()], dtype=object), np.array([a1], dtype=object), pre + facts)
+            np.array([new['alpha'].item()], dtype=object), np.array([a1], dtype=object), pre + facts,
+            kind='core' if t['algo'] == 'S_ADA' else 'stretch')      # the property pins the diagonal term of S-AdaGrad only
     for i in range(k):
       P.prove(f'{tag}|O2 e\'_{i}^2 = s_{i}^2 - rho^2, e\'_{i} >= 0',
               z3.And(zl(sq(new['e'][i])) == zl(R.s_mul(R.s_sub(s[i], rho), R.s_add(s[i], rho))), zl(new['e'][i]) >= 0), pre + facts)
@@ -136,7 +137,12 @@ def work(t):
             'ADA_FD': 'w\' = w - lr (g - V (e\'/(alpha + e\')) V^T g) / alpha',
             'FD_SON': 'w\' = w - [V (alpha + s^2 - rho^2)^(-1) V^T g + alpha^(-1) (g - V V^T g)]',
             'RFD_SON': 'w\' = w - [V (alpha\' + s^2 - rho^2)^(-1) V^T g + alpha\'^(-1) (g - V V^T g)]'}[t['algo']]
-    P.equal(f'{tag}|O3 {name}', new['w'], want, pre + facts, split=[zl(a1) <= 0] + [zl(R.s_add(a1, sdef[i])) <= 0 for i in range(k)])
+    splits = [zl(a1) <= 0] + [zl(R.s_add(a1, sdef[i])) <= 0 for i in range(k)]
+    if t['algo'] == 'S_ADA':
+      # what the property states: in the lossless regime (rho = 0, so alpha stays delta > 0) the step is that of full-matrix AdaGrad
+      P.equal(f'{tag}|O3 lossless regime (rho = 0, alpha > 0): {name}', new['w'], want, pre + facts + [zl(rho) == 0, zl(al.item()) > 0], split=splits)
+    # the documented step in every regime is more than the property says about the iterates: reported, not counted
+    P.equal(f'{tag}|O3 {name}', new['w'], want, pre + facts, split=splits, kind='stretch')
     P.reach(f'{tag}|twin: satisfiable with rho > 0', pre + facts, [zl(rho) > 0])
   res, viol = [], []
   confirmed = None
